@@ -65,6 +65,7 @@ type GenReq struct {
 var bodySizes = []int{0, 1, 2, 7, 100, 1000, 4095, 4096, 4097, 8191, 8192, 8193, 12000, 65537, 600000}
 
 var methodsBody = []string{"POST", "PUT", "PATCH", "DELETE", "OPTIONS", "PURGE", "M-SEARCH"}
+var methodsBodyGET = append(append([]string(nil), methodsBody...), "GET") // values 0..6 as in methodsBody (recorded tapes)
 var methodsAny = []string{"GET", "POST", "PUT", "HEAD", "DELETE", "OPTIONS", "PATCH", "PURGE", "M-SEARCH"}
 
 var nearMissCL = []string{"Content-Lengt", "Content-Length2", "X-Content-Length", "Content_Length", "Content-Lengthh",
@@ -177,7 +178,9 @@ func GenRequest(tp *core.Tape, idx int, last bool, o GenOpt) *GenReq {
 	g.M = m
 	hasBody := tp.Chance("hasbody", 6, 10) || o.ForceBody
 	if hasBody {
-		if o.NoBodyGET || o.ForceBody {
+		if o.ForceBody && !o.NoBodyGET {
+			m.Method = methodsBodyGET[tp.Choose("method", len(methodsBodyGET))]
+		} else if o.NoBodyGET || o.ForceBody {
 			m.Method = methodsBody[tp.Choose("method", len(methodsBody))]
 		} else {
 			m.Method = methodsAny[tp.Choose("method", len(methodsAny))]
